@@ -402,7 +402,12 @@ func (s *session) apply(op Op) {
 				}, 20*time.Second); ok {
 					s.c.Observe("failed-start-error-event", 1)
 				} else {
+					// the bind has not been attempted (or not reported) yet: no quiescence, and
+					// releasing the port now would let the listener come up after all
 					s.c.Observe("failed-start-no-error-event", 1)
+					s.broken = fmt.Sprintf("HTTP listener %q: no Listener/Error event within 20 s although the harness holds its port", op.N)
+					s.model[op.N] = m
+					return
 				}
 				if l := s.held[op.N]; l != nil {
 					l.Close()
